@@ -1,0 +1,5 @@
+//go:build !verif
+
+package repl
+
+func verifCrashPoint(string) {}
